@@ -234,3 +234,29 @@ def corpus_items(pt, rng, shard, nshards):
                     it.teal = teal
                     it.anytype = True  # the examples read application state (anytype)
                     yield it
+
+
+def sequence_items(pt, rng, n):
+    """Several programs compiled one after the other in this process that share subroutine *objects* (and whose subroutines share
+    one Python name, as factory closures do): what a compilation leaves on a subroutine must not leak into the next program."""
+    for i in range(n):
+        reset_globals()
+        names = rng.choice([["helper"] * 4, ["helper", "_helper", "helper_", "he-lper"], ["a", "b", "a", "b"], ["f0", "f1", "f2", "f3"]])
+
+        def mk(j, nm):
+            def body(x):
+                return x * pt.Int(3) + pt.Int(j + 1)
+            body.__name__ = "helper"
+            return pt.Subroutine(pt.TealType.uint64, name=nm if rng.random() < .5 else None)(body)
+        pool = [mk(j, names[j]) for j in range(4)]
+        v = rng.choice([4, 5, 6, 7, 8, 9, 10])
+        for step in range(rng.choice([2, 3, 4])):
+            chosen = rng.sample(range(4), rng.choice([1, 2, 3, 4]))
+
+            def make(chosen=chosen):
+                e = pt.Int(1)
+                for j in chosen:
+                    e = e + pool[j](pt.Int(2 + j))
+                return e
+            it = Item("sequence", rng.choice(["app", "sig"]), v, rand_opts(rng, v), {"names": names, "step": step, "chosen": chosen})
+            yield _compile(pt, it, make)
